@@ -9,6 +9,10 @@ pub const POOL: &[(&str, &str, &str)] = &[
     ("base.html", "B1{% block head %}h1{% endblock %}{% block body %}b1{{ x }}{% endblock %}", "valid"),
     ("base.html", "B2{% block head %}h2{% endblock %}{% block body %}{% block inner %}i2{% endblock %}{% endblock %}{% include \"inc.html\" %}", "valid-needs-inc"),
     ("base.html", "B3{% block head %}{% set s = x %}{{ s }}{% endblock %}{% block body %}{{ y.z }}{% endblock %}{{ <ui.Card t=\"b\" /> }}", "valid-needs-card"),
+    ("base.html", "{% extends \"root.html\" %}{% block head %}bh+{{ super() }}{% endblock %}{% block body %}bb{% block inner %}bi{{ x }}{% endblock %}{% endblock %}", "valid-child-of-root"),
+    ("root.html", "R1[{% block head %}rh{% endblock %}|{% block body %}rb{% endblock %}|{% block inner %}ri{% endblock %}]", "valid-root"),
+    ("root.html", "R2{% block head %}{{ y.z }}{% endblock %}{% block body %}{{ x }}{% endblock %}", "valid-root-v2"),
+    ("root.html", "{% extends \"page.html\" %}", "extends-cycle-or-valid"),
     ("base.html", "{% block head %}", "syntax-error"),
     ("base.html", "{% extends \"page.html\" %}", "extends-cycle-or-valid"),
     ("mid.html", "{% extends \"base.html\" %}{% block body %}m[{{ super() }}]{% endblock %}", "valid-child"),
@@ -286,7 +290,7 @@ pub fn run(rep: &Report) {
         }
     }
     let maxops = if rep.tier == Tier::Thorough { 40 } else { 12 };
-    let n = rep.tier.scale(120_000, 15);
+    let n = rep.tier.scale(360_000, 6);
     run_family(rep, "histories", n, move || (any::<bool>(), any::<bool>(), prop::collection::vec(op_strategy(), 1..=maxops)), |(p, c, ops), l| check_history(&Config { prefixes: *p, custom_filter: *c }, ops, l));
     run_family(rep, "two_histories", n / 2, || (any::<bool>(), any::<bool>(), prop::collection::vec(0..POOL.len(), 1..10), any::<u64>()), |(p, c, e, s), l| check_two_histories(&Config { prefixes: *p, custom_filter: *c }, e, *s, l));
     for (lab, min) in [("add:ok", 150_000), ("add:err", 150_000), ("history:failure-after-success", 50_000), ("history:duplicate-name-in-batch", 30_000), ("history:autoescape-reconfigured", 30_000), ("two-histories:compared", 3_000)] {
